@@ -723,6 +723,12 @@ func packagePrepareWalkFn(root string, ignoreRules *ignorefiles.Ruleset) filepat
 			if filepath.IsAbs(target) {
 				return fmt.Errorf("module package path %q is a symlink with an absolute target", relPath)
 			}
+			// For the same reason the target, read from the link's own
+			// position, must not climb above the package root on its way,
+			// even if it comes back in by the directory's current name.
+			if !filepath.IsLocal(filepath.Join(filepath.Dir(relPath), target)) {
+				return fmt.Errorf("module package path %q is symlink traversing out of the package root", relPath)
+			}
 		}
 		absRoot, err := filepath.Abs(root)
 		if err != nil {
